@@ -134,7 +134,8 @@ Inductive logitem :=
 | LRehash (n : N)                        (* table rebuilt: n keys hashed again *)
 | LDrop (toks : list N)                  (* Drop ran for the objects with these tokens *)
 | LDropKV (site : string) (e : entry)    (* an owned (K, V) was dropped as a whole, in function `site` *)
-| LVisit (k : key) (v : val).            (* the predicate of retain was called *)
+| LVisit (k : key) (v : val)             (* the predicate of retain was called *)
+| LWrite (f : string).                   (* self.f was assigned (bookkeeping order: no event of Layer A, see Gen/OpBodiesProps.v) *)
 
 Definition evict_site : string := "LruCache::eject_to_target".
 (* the events of Layer A, read off the log. Evicted = the pairs dropped by eject_to_target. *)
@@ -387,8 +388,8 @@ Definition assign (l : lhs) (v : value) (st : state) : option state :=
   match l with
   | LVar x => en <- update x v (env st) ;; Some (with_env st en)
   | LSelf f => match v with
-               | VNum n => if String.eqb f "current_size" then Some (with_cs st (with_cur b n))
-                           else if String.eqb f "max_size" then Some (with_cs st (with_max b n))
+               | VNum n => if String.eqb f "current_size" then Some (add_log (with_cs st (with_cur b n)) [LWrite f])
+                           else if String.eqb f "max_size" then Some (add_log (with_cs st (with_max b n)) [LWrite f])
                            else None
                | _ => None end
   | LSize e => match eval (env st) b e, v with
